@@ -2,7 +2,7 @@
    Exact cell-level statements at eps = 0 (DESIGN 2.2/2.3): [covers_cell l k] says the
    unit cell [k, k+1] is covered by a member of l; [canonical] = strictly increasing,
    non-abutting, positive-length segments. Statements only. *)
-From PV Require Import Model.Timeline Proofs.SortedP Proofs.SupportP Proofs.CropP Proofs.GapsP.
+From PV Require Import Model.Timeline Proofs.SortedP Proofs.SupportP Proofs.CropP Proofs.GapsP Proofs.GapsEpsP.
 
 Section C06.
 Variable t : list seg.
@@ -51,6 +51,59 @@ Theorem C06_covers : covers 0 t o = true <-> forall k, covers_cell o k -> covers
 Proof. exact (covers_spec t o Ht Ho). Qed.
 End C06.
 
+(* ---- every time precision eps >= 0 (the library default, one microsecond, is eps = 4 in regime K4) ----
+   With a precision a hole no longer than eps is an EMPTY segment and is not reported, so the complement is exact
+   only up to such slivers.  [merged_crop eps t x] = support(crop(t, x)): the annotated part of x as the library sees it. *)
+Section C06_eps.
+Variable eps : Z.
+Hypothesis Heps : 0 <= eps.
+Variable t : list seg.
+Hypothesis Ht : wf eps t.
+
+(* every reported gap is longer than eps, inside the support segment, and disjoint from every merged piece *)
+Theorem C06_eps_gaps_sound : forall x g, In g (gaps eps t (Some (SupSeg x))) ->
+  en g - st g > eps /\ st x <= st g /\ en g <= en x /\
+  (forall s, In s (merged_crop eps t x) -> en g <= st s \/ en s <= st g).
+Proof. exact (gaps_segment_sound eps Heps t Ht). Qed.
+(* ... in particular from every stretch of a member that survives the crop *)
+Theorem C06_eps_gaps_avoid_members : forall x g a k,
+  In g (gaps eps t (Some (SupSeg x))) -> In a t -> nonempty eps (sand a x) = true ->
+  Z.max (st a) (st x) <= k < Z.min (en a) (en x) -> ~ (st g <= k < en g).
+Proof. exact (gaps_segment_avoids_members eps Heps t Ht). Qed.
+(* every time point of the support segment is annotated, in a reported gap, or in a sliver no longer than eps
+   bounded by merged pieces / the ends of the support *)
+Theorem C06_eps_gaps_complete : forall x k, st x <= k < en x ->
+  covers_cell (merged_crop eps t x) k \/ covers_cell (gaps eps t (Some (SupSeg x))) k
+  \/ sliver eps (st x) (en x) (merged_crop eps t x) k.
+Proof. exact (gaps_segment_complete eps Heps t Ht). Qed.
+(* Timeline supports: the same, region by region of the merged support *)
+Theorem C06_eps_gaps_timeline_sound : forall l g, In g (gaps eps t (Some (SupTl l))) ->
+  exists r, In r (support eps 0 l) /\
+    en g - st g > eps /\ st r <= st g /\ en g <= en r /\
+    (forall s, In s (merged_crop eps t r) -> en g <= st s \/ en s <= st g).
+Proof. exact (gaps_timeline_sound eps Heps t Ht). Qed.
+Theorem C06_eps_gaps_timeline_complete : forall l r k, In r (support eps 0 l) -> st r <= k < en r ->
+  covers_cell (merged_crop eps t r) k \/ covers_cell (gaps eps t (Some (SupTl l))) k
+  \/ sliver eps (st r) (en r) (merged_crop eps t r) k.
+Proof. exact (gaps_timeline_complete eps Heps t Ht). Qed.
+(* covers(other): no reported gap within other's extent intersects a member of other *)
+Theorem C06_eps_covers : forall o, wf eps o ->
+  (covers eps t o = true <->
+   forall g x, In g (gaps eps t (Some (SupSeg (extent_l o)))) -> In x o -> intersects eps g x = false).
+Proof. exact (covers_eps_spec eps Heps t). Qed.
+End C06_eps.
+(* at eps = 0 there is no sliver: the exact partition above *)
+Theorem C06_no_sliver_at_zero : forall e stop c k, ~ sliver 0 e stop c k.
+Proof. exact no_sliver_at_zero. Qed.
+
+Example C06_eps_nonvacuous :
+  wf 4 [(0,20); (23,40); (50,60)] /\
+  gaps 4 [(0,20); (23,40); (50,60)] (Some (SupSeg (-10,70))) = [(-10,0); (40,50); (60,70)] /\
+  merged_crop 4 [(0,20); (23,40); (50,60)] (-10,70) = [(0,40); (50,60)] /\
+  gaps 4 [(0,20); (30,40)] (Some (SupSeg (-3,43))) = [(20,30)] /\         (* slivers (-3,0) and (40,43) not reported *)
+  covers 4 [(0,20); (23,40)] [(1,39)] = true /\ covers 4 [(0,20); (25,40)] [(1,39)] = false.
+Proof. split; [split; repeat constructor | vm_compute; repeat split]. Qed.
+
 Example C06_nonvacuous :
   wf 0 [(0,2); (1,2); (3,5)] /\
   gaps 0 [(0,2); (1,2); (3,5)] (Some (SupSeg (-1,7))) = [(-1,0); (2,3); (5,7)] /\
@@ -70,3 +123,10 @@ Print Assumptions C06_extrude_intersection.
 Print Assumptions C06_extrude_loose.
 Print Assumptions C06_extrude_strict.
 Print Assumptions C06_covers.
+Print Assumptions C06_eps_gaps_sound.
+Print Assumptions C06_eps_gaps_avoid_members.
+Print Assumptions C06_eps_gaps_complete.
+Print Assumptions C06_eps_gaps_timeline_sound.
+Print Assumptions C06_eps_gaps_timeline_complete.
+Print Assumptions C06_eps_covers.
+Print Assumptions C06_no_sliver_at_zero.
